@@ -144,7 +144,47 @@ def h_select(ctx, case):
     return 'ok'
 
 
+def _ss_setup(case, mode):
+    from harness import selstage as SS
+    SS.setup(case, mode)
+
+
+def h_select_all(ctx, case):
+    """select_all_markers on a reference-marker file written by the
+    real reference-marker stage"""
+    from harness import selstage as SS
+    res = SS.run_selection(ctx, case)
+    if res['raised'] is not None:
+        if not any(res['inq']) and 'No gene overlap' in str(res['raised']):
+            ctx.reach('no overlap')
+            return 'no overlap'
+        ctx.exception(res['raised'])
+        return 'EXC ' + type(res['raised']).__name__
+    ctx.reach('selected')
+    SS.check_selection(ctx, res)
+    return 'ok'
+
+
 HARNESSES = [
+    Harness('select_all_markers_stage', h_select_all, setup=_ss_setup,
+            cases=[{'vary_genes': ['g0', 'g3', 'g5'], 'target': 2},
+                   {'vary_genes': ['g1'], 'target': 1}],
+            thorough_cases=[{}, {'vary_genes': ['g0', 'g5'], 'K': 1}],
+            funcs=['selection_pipeline.select_all_markers',
+                   '_marker_selection_worker',
+                   'MarkerGeneArray.from_cache_path / '
+                   '_from_cache_path_query_genes / spawn_copy / '
+                   'downsample_pairs_to_other',
+                   'csc_to_csr.transpose_by_way_of_disk',
+                   'selection.select_marker_genes_v2 (+ helpers)'],
+            stubs=['multiprocessing -> model (workers inline)'],
+            bounds='reference-marker file of 5 leaves / 6 genes written by '
+                   'the real marker stage; every query gene subset; target '
+                   '1-2; 1-3 workers; large-parent threshold in '
+                   '{default, 0, 1, -1} (every parent on the full table / '
+                   'on its own pairs); result compared with the '
+                   'single-worker default run',
+            expect_reach=['selected'], split=32),
     Harness('select_markers_per_parent', h_select,
             cases=[{'genes': 2}, {'genes': 3, 'max_target': 1, 'states': 2}],
             thorough_cases=[{'genes': 3, 'max_target': 1},
